@@ -115,8 +115,125 @@ impl<'a> Shrinker<'a> {
                 best = cand;
             }
         }
+        // 6. cosmetic: operands are taken modulo the population, so a large operand usually has a
+        //    small equivalent; try 0..8 for each (special selectors near usize::MAX stay)
+        for i in 0..best.actions.len() {
+            let Ok(mut val) = serde_json::to_value(&best.actions[i]) else { continue };
+            let mut paths: Vec<Vec<String>> = vec![];
+            collect_operands(&val, &mut vec![], &mut paths);
+            for path in paths {
+                let cur = get_path(&val, &path).and_then(|v| v.as_u64()).unwrap_or(0);
+                if cur <= 8 || cur >= u64::MAX - 8 {
+                    continue;
+                }
+                for small in 0..=8u64 {
+                    if self.used >= self.budget {
+                        break;
+                    }
+                    let mut v2 = val.clone();
+                    set_path(&mut v2, &path, serde_json::Value::from(small));
+                    let Ok(act) = serde_json::from_value::<Action>(v2.clone()) else { break };
+                    let mut cand = best.clone();
+                    cand.actions[i] = act;
+                    if self.fails(&cand) {
+                        best = cand;
+                        val = v2;
+                        break;
+                    }
+                }
+            }
+        }
+        // 7. with small operands more actions may have become removable
+        loop {
+            let mut any = false;
+            let mut i = best.actions.len();
+            while i > 0 {
+                i -= 1;
+                if best.actions.len() <= 1 {
+                    break;
+                }
+                let mut cand = best.clone();
+                cand.actions.remove(i);
+                if self.fails(&cand) {
+                    best = cand;
+                    any = true;
+                }
+            }
+            if !any || self.used >= self.budget {
+                break;
+            }
+        }
         best
     }
+}
+
+const OPERAND_KEYS: [&str; 12] = ["src", "node", "obs", "var", "a", "b", "lhs", "sub", "m", "clone", "srcs", "on"];
+
+fn collect_operands(v: &serde_json::Value, at: &mut Vec<String>, out: &mut Vec<Vec<String>>) {
+    match v {
+        serde_json::Value::Object(m) => {
+            for (k, x) in m {
+                at.push(k.clone());
+                if OPERAND_KEYS.contains(&k.as_str()) {
+                    match x {
+                        serde_json::Value::Number(_) => out.push(at.clone()),
+                        serde_json::Value::Array(xs) => {
+                            for (j, y) in xs.iter().enumerate() {
+                                if y.is_u64() {
+                                    let mut p = at.clone();
+                                    p.push(j.to_string());
+                                    out.push(p);
+                                }
+                            }
+                        }
+                        _ => {}
+                    }
+                }
+                if x.is_object() || x.is_array() {
+                    collect_operands(x, at, out);
+                }
+                at.pop();
+            }
+        }
+        serde_json::Value::Array(xs) => {
+            for (j, x) in xs.iter().enumerate() {
+                at.push(j.to_string());
+                collect_operands(x, at, out);
+                at.pop();
+            }
+        }
+        _ => {}
+    }
+}
+
+fn get_path<'a>(v: &'a serde_json::Value, path: &[String]) -> Option<&'a serde_json::Value> {
+    let mut cur = v;
+    for k in path {
+        cur = match cur {
+            serde_json::Value::Object(m) => m.get(k)?,
+            serde_json::Value::Array(xs) => xs.get(k.parse::<usize>().ok()?)?,
+            _ => return None,
+        };
+    }
+    Some(cur)
+}
+
+fn set_path(v: &mut serde_json::Value, path: &[String], new: serde_json::Value) {
+    let mut cur = v;
+    for k in path {
+        cur = match cur {
+            serde_json::Value::Object(m) => match m.get_mut(k) {
+                Some(x) => x,
+                None => return,
+            },
+            serde_json::Value::Array(xs) => match k.parse::<usize>().ok().and_then(|j| xs.get_mut(j)) {
+                Some(x) => x,
+                None => return,
+            },
+            _ => return,
+        };
+    }
+    *cur = new;
 }
 
 fn simplify_fx(fx: &[EffectSpec]) -> Vec<Vec<EffectSpec>> {
